@@ -33,7 +33,7 @@ def check_case(res, t, c, sc, label):
     if t.crash or t.hang:
         res.violation("crash/hang on a well-formed cabinet (%s): %s" % (label, (t.crash or "hang")[-300:]), sc.text(), key="crash"); return False
     ok = True; why = ""; key = "c01-cab"
-    opens = [o for o in t.ops if o.name == "cab_open"]
+    opens = [o for o in t.ops if o.name in ("cab_open", "cab_search")]
     if not opens or opens[0].kv.get("ok") != "1": ok = False; why = "open failed %s" % (opens[0].kv if opens else "")
     exs = [o for o in t.ops if o.name == "cab_extract"]
     if ok:
@@ -78,6 +78,18 @@ def cab_scenarios(rng, tier):
         c.exp_order = list(range(len(c.members)))
         for mi in c.exp_order: sc.op("cab_extract", "c0", mi, "out%d" % mi)
         out.append((c, sc, "single params=%s" % params))
+    # the search() front end (how cabextract opens every file): the cabinet behind a stub whose size puts the 20 header bytes the scanner
+    # needs across a refill of its buffer - the default 32768 and small SEARCHBUF values
+    for i in range(6 if tier == "quick" else 60):
+        c = gen.cab_single(rng, big=False)
+        sbuf = [32768, 4, 10, 17, 32768, 64][i % 6]
+        pre = (sbuf - 19 + (i // 6 * 3 + i) % 19) if i % 3 != 2 else rng.choice([0, 1, sbuf, 2 * sbuf - 7])
+        stub = bytes(rng.choice(b"\x00\x01MZ\x90PE stub ") for _ in range(max(pre, 0)))
+        sc = scenario.Scn().file("in0.cab", stub + c.files["in0.cab"])
+        sc.op("cab_new").op("cab_param", 0, sbuf).op("cab_search", "c0", "in0.cab")
+        c.exp_order = list(range(len(c.members)))
+        for mi in c.exp_order: sc.op("cab_extract", "c0", mi, "out%d" % mi)
+        out.append((c, sc, "search stub=%d searchbuf=%d" % (len(stub), sbuf)))
     for i in range(n2):
         c = gen.cab_set(rng)
         sc = scenario.Scn()
